@@ -116,8 +116,21 @@ class Check:
         path.write_text(json.dumps(payload, indent=1, default=str))
         self.violations.append((obligation, str(path.relative_to(ROOT)), not reproduced))
 
+    def primitive_selftest(self):
+        """differential self-test of the primitive models against the installed jax (bounded; part of the trusted base report)"""
+        try:
+            from .sym import selftest
+            n, bad = selftest(self.seed)
+            self.extra["primitive_model_selftest"] = {"cases": n, "mismatches": bad[:10]}
+            for b in bad[:5]:
+                self.error(f"primitive model disagrees with the installed JAX: {b[:300]}")
+        except Exception as e:
+            self.error(f"primitive model self-test crashed: {type(e).__name__}: {e}")
+
     # -- finish -----------------------------------------------------------------------------------
     def finish(self, checker_cmd=None, rule=None):
+        if "primitive_model_selftest" not in self.extra:
+            self.primitive_selftest()
         # bounded stand-ins (contract evaluation, float probes, AST scans) are reported separately and never counted as
         # discharged proof obligations
         NOT_PROOF = ("bounded-evaluation", "ast-scan")
